@@ -53,7 +53,7 @@ def run(ctx):
         lines.append(tup_line(0, t))
     prod3 = list(itertools.product(S3, repeat=3))
     if quick:
-        prod3 = prod3[ctx.seed % 3::3]
+        prod3 = rng.sample(prod3, len(prod3) // 3)
     for t in prod3:
         lines.append(tup_line(0, t))
     if not quick:
